@@ -75,10 +75,76 @@ def check_case(case):
         for b in ds[1:]:
             p.extend(b) if len(svg.Path(b)) != 1 else p.append(b)
         return p
+    def kw_add():           # the left operand built with the keyword form Path(d=...)
+        p = svg.Path(d=ds[0])
+        for b in ds[1:]:
+            p = p + b
+        return p
+
+    def kw_iadd():
+        p = svg.Path(d=ds[0])
+        for b in ds[1:]:
+            p += b
+        return p
     cmp("iadd", iadd)
     cmp("add", add)
     cmp("parse", parse)
-    checked = ["iadd", "add", "parse"]
+    cmp("kw_add", kw_add)
+    cmp("kw_iadd", kw_iadd)
+    checked = ["iadd", "add", "parse", "kw_add", "kw_iadd"]
+    # "equal Path(a b)" literally: the same data in a unit that needs 13 significant digits, joined piecewise and parsed
+    # in one go - both results come from the same arithmetic, so every coordinate must be identical (no tolerance)
+    U = 1234.567890123
+
+    def scaled_d(piece):
+        out = []
+        for c in piece:
+            letter, args = c[0], c[1]
+            if letter.upper() == "A":
+                nums = [repr(args[0] * U), repr(args[1] * U), repr(args[2]), str(args[3]), str(args[4])] + [repr(a * U) for a in args[5:]]
+            else:
+                nums = [repr(a * U) for a in args]
+            out.append((letter if not c[2] else "") + " " + " ".join(nums) + (" z" if c[3] else ""))
+        return " ".join(out).strip()
+    try:
+        sds = [scaled_d(p) for p in ps]
+        if all(d and d[0].isalpha() for d in sds):
+            whole = svg.Path(" ".join(sds))
+
+            def flat(path):
+                return [(type(g).__name__,) + tuple(None if q is None else (q.x, q.y) for q in g) for g in path]
+            forms = [("iadd", lambda: iadd_of(sds)), ("add", lambda: add_of(sds))]
+            if len(ps[0]) == 1 and not ps[0][0][3]:
+                forms.append(("segment_add", lambda: segadd_of(sds)))
+
+            def iadd_of(dd):
+                q = svg.Path(dd[0])
+                for b in dd[1:]:
+                    q += b
+                return q
+
+            def add_of(dd):
+                q = svg.Path(dd[0])
+                for b in dd[1:]:
+                    q = q + b
+                return q
+
+            def segadd_of(dd):
+                q = svg.Path(dd[0])[0] + dd[1]
+                for b in dd[2:]:
+                    q = q + b
+                return q
+            want = flat(whole)
+            for name, fn in forms:
+                got = flat(fn())
+                if got != want:
+                    i = next((j for j, (a, b) in enumerate(zip(got, want)) if a != b), min(len(got), len(want)))
+                    dis.append({"clause": name + ":NotIdentical", "detail": "joined piecewise %r differs from the single parse at segment %d: %r vs %r" % (
+                        sds, i, got[i] if i < len(got) else None, want[i] if i < len(want) else None)})
+    except engine.CaseTimeout:
+        raise
+    except Exception as e:
+        pass        # (the integer-coordinate forms above report exceptions)
     if len(ps[0]) == 1 and not ps[0][0][3]:
         def segadd():
             p = svg.Path(ds[0])[0] + ds[1]
